@@ -1,0 +1,51 @@
+// Copyright 2025 The Go MCP SDK Authors. All rights reserved.
+// Use of this source code is governed by an MIT-style
+// license that can be found in the LICENSE file.
+
+//go:build verif
+
+// Contracts for the verification framework in /verif (comment-only; see /verif/DESIGN.md).
+// This file declares nothing and is compiled only with -tags verif.
+
+package mcp
+
+// ---------------------------------------------------------------------------------------------
+// C07: protocol version negotiation
+// ---------------------------------------------------------------------------------------------
+
+//@ pred sdkSupports(v string) := v == protocolVersion20260728 || v == protocolVersion20251125 || v == protocolVersion20250618 || v == protocolVersion20250326 || v == protocolVersion20241105
+//@ pred legacy(v string) := v < protocolVersion20260728
+
+// The list the SDK negotiates from (package-level variable, assigned only by its initializer).
+//@ global-invariant len(supportedProtocolVersions) == 5 && supportedProtocolVersions[0] == protocolVersion20260728
+//@      && supportedProtocolVersions[1] == protocolVersion20251125 && supportedProtocolVersions[2] == protocolVersion20250618
+//@      && supportedProtocolVersions[3] == protocolVersion20250326 && supportedProtocolVersions[4] == protocolVersion20241105
+
+// initialize path: the result is always an SDK-supported pre-2026 version, and the client's own when that is one.
+//@ func negotiatedVersion [C07]
+//@   nopanic
+//@   ensures @supported-legacy sdkSupports(result) && legacy(result)
+//@   ensures @requested-wins sdkSupports(clientVersion) && legacy(clientVersion) ==> result == clientVersion
+//@   ensures @fallback !(sdkSupports(clientVersion) && legacy(clientVersion)) ==> result == protocolVersion20251125
+
+// discover path: the first SDK version (newest first) that the other side lists, or "" when there is none.
+//@ func negotiateMutuallySupportedVersion [C07]
+//@   nopanic
+//@   ensures @none-iff-disjoint result == "" <==> (forall j int :: 0 <= j && j < 5 ==> !has(supported, supportedProtocolVersions[j]))
+//@   ensures @mutual result != "" ==> sdkSupports(result) && has(supported, result)
+//@   ensures @newest forall j int :: 0 <= j && j < 5 && has(supported, supportedProtocolVersions[j]) ==> supportedProtocolVersions[j] <= result
+//@   loop 1: invariant forall j int :: 0 <= j && j < $idx ==> !has(supported, supportedProtocolVersions[j])
+
+// The deprecated HTTP+SSE transport never serves 2026-07-28 or later.
+//@ func (*SSEServerTransport).SupportsProtocolVersion [C07]
+//@   ensures @pre-2026-only result <==> legacy(version)
+
+// Streamable HTTP serves exactly the SDK's versions, the 2026 revision only when stateless.
+//@ func (*StreamableServerTransport).SupportsProtocolVersion [C07]
+//@   requires t != nil
+//@   nopanic
+//@   ensures @sdk-and-stateless result <==> (sdkSupports(version) && (legacy(version) || t.Stateless))
+
+// The package initializer establishes the package invariants (checked at the assignment) and the engine's
+// frame check shows the variables named in them are never assigned again, mutated or aliased.
+//@ func init [C07]
